@@ -779,7 +779,56 @@ def validate_rule(ctx: Ctx, rid: str) -> None:
             d = dotted(r.exc.func if isinstance(r.exc, ast.Call) else r.exc) if r.exc is not None else None
             okk = d is not None and d.split(".")[-1] == "GeneticEngineError"
             ctx.ob(rid, v, r, f"{owner}.validate raises the library error", okk, "" if okk else f"raises {d}")
+        # ... also when the rejection is actually executed: validate is interpreted (finite model, strict table lookups) with a
+        # limit below the minimum, for a grammar whose start symbol is abstract (it has productions) and for one whose start symbol is
+        # a concrete class (the production table has no entry for it); every run must end in the library's error
+        n += 1
+        verdict, why = _validate_rejects(ctx, c, v)
+        ctx.ob(rid, v, v.node, f"{owner}.validate rejects an infeasible limit with the library error on every grammar shape", verdict, why)
     ctx.floor(rid, n, 4, "validate obligations")
+
+
+def _validate_rejects(ctx: Ctx, c, v) -> tuple:
+    from ..modelinterp import Budget, Interp, Sym, UNKNOWN
+    prog = ctx.prog
+    S, P1, P2 = Sym("START"), Sym("P1"), Sym("P2")
+    und = None
+    for shape, table in (("an abstract start symbol", {"START": [P1, P2]}), ("a concrete start symbol", {})):
+        for minimum in (3, 1000000):
+            def call_model(it, call, env, args, kwargs, minimum=minimum):
+                nm = call_name(call)
+                if nm == "get_min_tree_depth":
+                    return minimum
+                if nm == "get_distance_to_terminal" and len(args) == 1:
+                    return {"START": minimum, "P1": minimum, "P2": minimum + 1}.get(getattr(args[0], "tag", None), UNKNOWN)
+                if nm == "get_max_node_depth":
+                    return minimum + 1
+                return None
+            it = Interp(prog, c, lambda *_: None, call_model, max_depth=6, max_traces=8)
+            it.strict_keys = True
+            it.heap[("grammar", "alternatives")] = dict(table)
+            it.heap[("grammar", "starting_symbol")] = S
+            it.heap[("grammar", "all_nodes")] = [S, P1, P2] if table else [S]
+            env = {"self": Sym("self"), "self.max_depth": 1, "self.grammar": Sym("grammar"), "self.random": Sym("random")}
+            try:
+                runs = it.run(v, env)
+            except Budget:
+                und = und or "too many interpretations"
+                continue
+            for trace, rv, notes in runs:
+                raises = [e for e in trace if e.kind == "raise"]
+                if notes:
+                    und = und or notes[0]
+                elif not raises:
+                    return False, f"with a limit of 1, a grammar minimum of {minimum} and {shape} validate returns: the infeasible limit is accepted"
+                else:
+                    name = raises[-1].name.split(":")[0].split("(")[0].strip()
+                    cls_ = next((k for k in prog.classes.values() if k.name == name), None)
+                    lib = name == "GeneticEngineError" or (cls_ is not None and prog.is_subclass(cls_, "geneticengine.exceptions.GeneticEngineError"))
+                    if not lib:
+                        return False, (f"with a limit of 1, a grammar minimum of {minimum} and {shape} validate fails with {raises[-1].name[:60]} instead of the "
+                                       f"library's error: callers that handle the library error (the initializers that raise the limit step by step) crash")
+    return (None, und) if und else (True, "")
 
 
 # ------------------------------------------------------------------------------------------- AND / OR polarity
